@@ -35,10 +35,11 @@ VOCAB = [
     ("time", "time", "benign_std"), ("itertools", "count", "benign_std"), ("marshal", "loads", "benign_std"),
     ("_io", "BytesIO", "benign_std"), ("numpy.testing._private.utils.x", "runstring", "nonstd"),
 ]
-SECOND = [("collections", "OrderedDict"), ("verif_sink", "other"), ("builtins", "getattr"), ("os", "getpid")]
+SECOND = [("collections", "OrderedDict"), ("verif_sink", "other"), ("builtins", "getattr"), ("os", "getpid"),
+          ("collections", "deque"), ("datetime", "date")]
 
 
-def generate(ctx, profile, maxlen, *, simulate=None, depth=None, minstop=0, maxdepth=8):
+def generate(ctx, profile, maxlen, *, simulate=None, depth=None, minstop=0, maxdepth=8, require=()):
     cfg = GEN_CFG.replace("@MAXLEN@", str(maxlen)).replace("@MINSTOP@", str(minstop)).replace("@MAXDEPTH@", str(maxdepth))
     if simulate:   # walks: keep the cheap invariants only (all successors of every visited state are checked)
         for ln in ("PROPERTY Monotone\n", "INVARIANT Replayable\n", "INVARIANT HeapClosed\n", "INVARIANT ResultCanonical\n"):
@@ -54,7 +55,10 @@ def generate(ctx, profile, maxlen, *, simulate=None, depth=None, minstop=0, maxd
         if tag == "PROG":
             seen.setdefault(json.dumps(js, sort_keys=True), js)
     # TLC's workers print in a nondeterministic order: sort, so that a seed reproduces a run
-    return [seen[k] for k in sorted(seen)]
+    progs = [seen[k] for k in sorted(seen)]
+    if require:     # focused profiles: keep the programs in which all the opcodes of interest interact
+        progs = [p for p in progs if set(require) <= {o["o"] for o in p}]
+    return progs
 
 
 def instantiate(prog, v1, v2, rng, variants=True):
@@ -67,8 +71,8 @@ def instantiate(prog, v1, v2, rng, variants=True):
                 op["m"], op["n"] = v1[0], v1[1]
             elif op["m"] == "M2":
                 op["m"], op["n"] = v2[0], v2[1]
-        elif op["o"] == "CONST" and op["ty"] == "str" and op["s"] in ("M1", "N1"):
-            val = v1[0] if op["s"] == "M1" else v1[1]
+        elif op["o"] == "CONST" and op["ty"] == "str" and op["s"] in ("M1", "N1", "M2"):
+            val = v1[0] if op["s"] == "M1" else (v1[1] if op["s"] == "N1" else v2[0])
             op.update({"v": f"str:'{val}'", "h": f"s:'{val}'", "s": val})
         out.append(op)
     var = [rng.randrange(0, 8) for _ in out] if variants else None
@@ -77,7 +81,7 @@ def instantiate(prog, v1, v2, rng, variants=True):
 
 def uses_symbols(prog):
     return any((op["o"] in ("GLOBAL", "INST") and op["m"] in ("M1", "M2")) or
-               (op["o"] == "CONST" and op.get("s") in ("M1", "N1")) for op in prog)
+               (op["o"] == "CONST" and op.get("s") in ("M1", "N1", "M2")) for op in prog)
 
 
 def build_items(ctx, plan, per_shape=1, natural=0):
@@ -136,10 +140,14 @@ def validate(ctx, records, batch=6000, par=4):
 PLANS = {
     "quick": dict(plan=[dict(profile="calls", maxlen=5), dict(profile="data", maxlen=5),
                         dict(profile="sharing", maxlen=5), dict(profile="headers", maxlen=5), dict(profile="objcont", maxlen=5),
+                        dict(profile="memoglobal", maxlen=8, maxdepth=4, require=("STACK_GLOBAL", "MEMOIZE", "PUT", "GET")),
+                        dict(profile="memoslots", maxlen=7, maxdepth=4, require=("MEMOIZE", "PUT", "GET")),
                         dict(profile="mixed", maxlen=14, simulate=120, depth=14, minstop=7, maxdepth=6)],
                   per_shape=1, natural=400),
     "thorough": dict(plan=[dict(profile="calls", maxlen=6), dict(profile="data", maxlen=6),
                            dict(profile="sharing", maxlen=6), dict(profile="headers", maxlen=6), dict(profile="objcont", maxlen=6),
+                           dict(profile="memoglobal", maxlen=9, maxdepth=4, require=("STACK_GLOBAL", "MEMOIZE", "PUT", "GET")),
+                           dict(profile="memoslots", maxlen=8, maxdepth=4, require=("MEMOIZE", "PUT", "GET")),
                            dict(profile="mixed", maxlen=30, simulate=6000, depth=30, minstop=10, maxdepth=8)],
                      per_shape=2, natural=6000),
 }
@@ -196,7 +204,8 @@ def run_family(ctx, prop, clause_of, nontrivial, rule, want=("steps", "dec", "ch
                   distinct_nontrivial=len(nontriv), rule=rule, samples=samples, traces=len(records),
                   assumptions=ASSUME, machinery_errors=mach,
                   extra={"out_of_typed_domain": outdom, "exhaustive": False,
-                         "profiles": [f"{g['profile']}:len{g['maxlen']}" + (":simulate" if g.get("simulate") else ":exhaustive") for g in P["plan"]]})
+                         "profiles": [f"{g['profile']}:len{g['maxlen']}" + (":simulate" if g.get("simulate") else ":exhaustive")
+                                      + (":require=" + "+".join(g["require"]) if g.get("require") else "") for g in P["plan"]]})
 
 
 def features(rec):
